@@ -23,7 +23,9 @@ structure Lawful (rnd : Rounding) where
   small_down : ∀ {q q'}, small q → q' ≤ q → small q'
   rnd_small : ∀ {q}, small q → ∃ v, rnd q = some v
   rep_succ_small : ∀ {q v}, rnd q = some v → small (v + 1)
-  nonint_small : ∀ {v}, rnd v = some v → ((v.floor : ℤ) : ℚ) ≠ v → small (v * 10)
+  nonint_small : ∀ {v}, rnd v = some v → ((v.floor : ℤ) : ℚ) ≠ v → small (12 * v + 16)
+  idem : ∀ {q v}, rnd q = some v → rnd v = some v
+  rep_frac : ∀ {v}, 0 ≤ v → rnd v = some v → rnd (v - ((v.floor : ℤ) : ℚ)) = some (v - ((v.floor : ℤ) : ℚ))
   rel : ∀ {q v}, 0 < q → rnd q = some v → |v - q| ≤ max (q * u) d
   rep_tiny : ∀ {v}, 0 ≤ v → rnd v = some v → v = 0 ∨ 2 * d ≤ v
 
@@ -42,6 +44,8 @@ def lawfulExact : Lawful (some : Rounding) where
   rnd_small := fun _ => ⟨_, rfl⟩
   rep_succ_small := fun _ => trivial
   nonint_small := fun _ _ => trivial
+  idem := fun _ => rfl
+  rep_frac := fun _ _ => rfl
   rel := by intro q v _ h; simp at h; subst h; simp
   rep_tiny := by intro v hv _; right; linarith
 
@@ -162,7 +166,7 @@ def lawful64 : Lawful rnd64 where
       linarith
   nonint_small := by
     intro v h hni
-    show v * 10 < pow2 1024 - pow2 970
+    show 12 * v + 16 < pow2 1024 - pow2 970
     have hv0 : 0 ≤ v := by
       by_contra hc
       unfold rnd64 at h
@@ -198,8 +202,60 @@ def lawful64 : Lawful rnd64 where
       have : (1024 : ℤ) = 1023 + 1 := by norm_num
       rw [this, pow2_succ]
     have h4 : pow2 970 < pow2 1023 := pow2_lt (by norm_num)
-    have := pow2_pos 52
+    have h52' : (16 : ℚ) ≤ pow2 52 := by
+      have : pow2 4 ≤ pow2 52 := pow2_mono (by norm_num)
+      have h4 : pow2 4 = 16 := by rw [pow2_eq]; norm_num
+      linarith
     linarith
+  idem := by
+    intro q v h
+    by_cases hq : 0 < q
+    · obtain ⟨k, hk, hv, hlt⟩ := rnd64_form hq h
+      rw [hv]
+      exact rnd64_fix hk (by unfold ulpExp; omega) (by rw [← hv]; exact hlt)
+    · unfold rnd64 at h
+      simp only [not_lt.mp hq, if_true] at h
+      simp at h; subst h; simp [rnd64]
+  rep_frac := by
+    intro v hv0 h
+    rcases lt_or_eq_of_le hv0 with hvp | h0
+    · obtain ⟨k, hk, hv, hlt⟩ := rnd64_form hvp h
+      by_cases hE : 0 ≤ ulpExp v
+      · obtain ⟨n, hn⟩ := Int.eq_ofNat_of_zero_le hE
+        have hvi : v = ((k * 2 ^ n : ℕ) : ℚ) := by rw [hv, hn, pow2_nat]; push_cast; ring
+        have : ((v.floor : ℤ) : ℚ) = v := by
+          rw [hvi]; exact_mod_cast Rat.floor_intCast ((k * 2 ^ n : ℕ) : ℤ)
+        rw [this, sub_self]; simp [rnd64]
+      · obtain ⟨n, hn⟩ := Int.eq_ofNat_of_zero_le (show 0 ≤ -ulpExp v by omega)
+        have hE' : ulpExp v = -(n : ℤ) := by omega
+        have hp2 : pow2 (ulpExp v) = 1 / ((2 ^ n : ℕ) : ℚ) := by
+          rw [hE', pow2_eq, zpow_neg]; simp
+        have hvd : v = (k : ℚ) / ((2 ^ n : ℕ) : ℚ) := by rw [hv, hp2]; ring
+        have hfl : v.floor = ((k / 2 ^ n : ℕ) : ℤ) := by
+          rw [hvd, ratFloor_eq, Rat.floor_natCast_div_natCast]; norm_cast
+        have hflq : ((v.floor : ℤ) : ℚ) = ((k / 2 ^ n : ℕ) : ℚ) := by rw [hfl, Int.cast_natCast]
+        have hpos : (0 : ℚ) < ((2 ^ n : ℕ) : ℚ) := by positivity
+        have hfrac : v - ((v.floor : ℤ) : ℚ) = ((k % 2 ^ n : ℕ) : ℚ) * pow2 (ulpExp v) := by
+          rw [hflq, hp2]
+          have hdm := Nat.div_add_mod k (2 ^ n)
+          have hk' : (k : ℚ) = ((2 ^ n : ℕ) : ℚ) * ((k / 2 ^ n : ℕ) : ℚ) + ((k % 2 ^ n : ℕ) : ℚ) := by
+            exact_mod_cast hdm.symm
+          generalize ((k / 2 ^ n : ℕ) : ℚ) = a at hk' ⊢
+          generalize ((k % 2 ^ n : ℕ) : ℚ) = b at hk' ⊢
+          generalize ((2 ^ n : ℕ) : ℚ) = D at hk' hpos hvd ⊢
+          rw [hvd, hk']
+          field_simp
+          ring
+        rw [hfrac]
+        refine rnd64_fix (le_trans (Nat.mod_le _ _) hk) (by unfold ulpExp; omega) ?_
+        rw [← hfrac]
+        have : ((v.floor : ℤ) : ℚ) ≥ 0 := by
+          have : (0 : ℤ) ≤ v.floor := Rat.le_floor_iff.mpr (by exact_mod_cast hv0)
+          exact_mod_cast this
+        linarith
+    · rw [← h0]
+      have : (0 : ℚ).floor = 0 := by exact_mod_cast Rat.floor_intCast 0
+      rw [this]; simp [rnd64]
   rel := fun hq h => rnd64_abs hq h
   rep_tiny := by
     intro v hv0 h
